@@ -7,6 +7,7 @@ structural theorems; `NoCollision` is the stated CRC caveat.
 -/
 import RqModel.Model.SnapStream
 import RqModel.Lemmas.SnapStream
+import RqModel.Gen.SinkClose
 namespace C10
 open RqModel.SnapStream
 
@@ -455,6 +456,93 @@ theorem data_corruption_fails (E : Ext) (hc : NoCollision E) (s s' db : Bytes) (
     _ = s.take (4 + be32 s) ++ s.drop (4 + be32 s) := by rw [hpre, body, body', edb, ewals]
     _ = s := List.take_append_drop _ _
 
+/-! the same facts without any global assumption about the checksum: either the bytes are the
+same, or the two byte strings at hand are a concrete CRC collision -/
+
+/-- `a` and `b` are different byte strings of the same length with the same checksum -/
+def Collide (E : Ext) (a b : Bytes) : Prop := a.length = b.length ∧ a ≠ b ∧ E.crc a = E.crc b
+
+theorem sizes_crc_eq_or_collide (E : Ext) : ∀ (hs : List FileHdr) (ws ws' : List Bytes),
+    SizesMatch ws hs → SizesMatch ws' hs → (∀ p ∈ ws.zip hs, E.crc p.1 = p.2.crc) →
+    (∀ p ∈ ws'.zip hs, E.crc p.1 = p.2.crc) →
+    ws' = ws ∨ ∃ w' ∈ ws', ∃ w ∈ ws, Collide E w' w := by
+  intro hs
+  induction hs with
+  | nil => intro ws ws' h h' _ _; cases h; cases h'; exact Or.inl rfl
+  | cons hd tl ih =>
+    intro ws ws' h h' c c'
+    match ws, ws', h, h' with
+    | f :: fs, f' :: fs', .cons h0 hr, .cons h0' hr' =>
+      have a : E.crc f = hd.crc := c (f, hd) (by simp)
+      have b : E.crc f' = hd.crc := c' (f', hd) (by simp)
+      by_cases e1 : f' = f
+      · rcases ih fs fs' hr hr' (fun p hp => c p (by simp [hp])) (fun p hp => c' p (by simp [hp])) with e2 | ⟨w', hw', w, hw, hc⟩
+        · left; rw [e1, e2]
+        · right; exact ⟨w', by simp [hw'], w, by simp [hw], hc⟩
+      · right; exact ⟨f', by simp, f, by simp, by omega, e1, by rw [a, b]⟩
+
+/-- **installed_db_is_source_or_collide.** With a header built from the source database (its size
+and CRC), what the sink installs is the source database — or the installed and the source bytes
+are a concrete CRC-32C collision of equal length. No assumption about the checksum. -/
+theorem installed_db_is_source_or_collide (E : Ext) (due : Bool) (ws : List Bytes)
+    (hne : ∀ w ∈ ws, w ≠ []) (db : Bytes) (wals : List Bytes)
+    (h : install E due ws = .installed db wals) (src : Bytes)
+    (hsrc : ∀ hb dbh walhs, E.decode hb = some ⟨1, .full (some dbh) walhs⟩ →
+      hb.length + 4 ≤ ws.flatten.length → (ws.flatten.drop 4).take hb.length = hb →
+      dbh.size = src.length ∧ dbh.crc = E.crc src) :
+    db = src ∨ Collide E db src := by
+  obtain ⟨pre, hb, dbh, walhs, a1, a2, a3, a4, a5, a6, _⟩ := install_exact E due ws hne db wals h
+  have := hsrc hb dbh walhs a4 (by rw [a1]; simp [a2]; omega) (by rw [a1]; simp [a2])
+  by_cases e : db = src
+  · exact Or.inl e
+  · exact Or.inr ⟨by omega, e, by rw [a6, this.2]⟩
+
+/-- **data_corruption_collides.** Length prefix and header bytes intact, file bytes changed: if
+the changed stream installs at all, then some installed file and the corresponding original
+file are a concrete same-length CRC collision. (For CRC-32C this excludes every single-bit
+flip and every burst of up to 32 bits.) -/
+theorem data_corruption_collides (E : Ext) (s s' db : Bytes) (wals : List Bytes)
+    (h : install E false [s] = .installed db wals) (hne : s' ≠ s)
+    (hpre : s'.take (4 + be32 s) = s.take (4 + be32 s)) (db' : Bytes) (wals' : List Bytes)
+    (h' : install E false [s'] = .installed db' wals') :
+    Collide E db' db ∨ ∃ w' ∈ wals', ∃ w ∈ wals, Collide E w' w := by
+  obtain ⟨hr, _, _⟩ := install_implies_restore E false s db wals h
+  obtain ⟨hr', _, _⟩ := install_implies_restore E false s' db' wals' h'
+  obtain ⟨dbh, walhs, h1, h2, hd, h3, hdb, hcrc, hw⟩ := restore_cases E s db wals hr
+  obtain ⟨dbh', walhs', h1', h2', hd', h3', hdb', hcrc', hw'⟩ := restore_cases E s' db' wals' hr'
+  have hn : be32 s' = be32 s := by
+    have a : be32 (s'.take (4 + be32 s)) = be32 s' := be32_take s' _ (by omega)
+    have b : be32 (s.take (4 + be32 s)) = be32 s := be32_take s _ (by omega)
+    calc be32 s' = be32 (s'.take (4 + be32 s)) := a.symm
+      _ = be32 (s.take (4 + be32 s)) := by rw [hpre]
+      _ = be32 s := b
+  have hhb : (s'.drop 4).take (be32 s) = (s.drop 4).take (be32 s) := by
+    have a : (s'.drop 4).take (be32 s) = ((s'.take (4 + be32 s)).drop 4) := by
+      rw [List.drop_take]; congr 1; omega
+    have b : (s.drop 4).take (be32 s) = ((s.take (4 + be32 s)).drop 4) := by
+      rw [List.drop_take]; congr 1; omega
+    rw [a, b, hpre]
+  rw [hn, hhb, hd] at hd'
+  have hp := congrArg SnapHeader.payload (Option.some.inj hd')
+  simp only [Payload.full.injEq, Option.some.injEq] at hp
+  obtain ⟨rfl, rfl⟩ := hp
+  obtain ⟨e1, e2, e3⟩ := restoreWals_sound E _ _ _ _ hw
+  obtain ⟨e1', e2', e3'⟩ := restoreWals_sound E _ _ _ _ hw'
+  rw [hn] at h3' hdb' e1'
+  simp only [List.append_nil] at e1 e1'
+  have hdbl : db.length = dbh.size := by rw [hdb]; simp only [List.length_take]; omega
+  have hdbl' : db'.length = dbh.size := by rw [hdb']; simp only [List.length_take]; omega
+  have body : s.drop (4 + be32 s) = db ++ wals.flatten := by rw [← e1, hdb, List.take_append_drop]
+  have body' : s'.drop (4 + be32 s) = db' ++ wals'.flatten := by rw [← e1', hdb', List.take_append_drop]
+  by_cases edb : db' = db
+  · rcases sizes_crc_eq_or_collide E walhs wals wals' e2 e2' e3 e3' with ewals | hc
+    · exfalso; apply hne
+      calc s' = s'.take (4 + be32 s) ++ s'.drop (4 + be32 s) := (List.take_append_drop _ _).symm
+        _ = s.take (4 + be32 s) ++ s.drop (4 + be32 s) := by rw [hpre, body, body', edb, ewals]
+        _ = s := List.take_append_drop _ _
+    · exact Or.inr hc
+  · exact Or.inl ⟨by omega, edb, by rw [hcrc, hcrc']⟩
+
 /-- toy externals with an injective "checksum" and a decoder that ignores the second byte -/
 def byteNat : Bytes → Nat
   | [] => 0
@@ -545,6 +633,20 @@ theorem edit_in_data_fails (E : Ext) (hc : NoCollision E) (s s' db : Bytes) (wal
     rw [List.take_take]; congr 1; omega
   rw [h1, h2, this]
 
+/-- **edit_in_data_collides.** Any single edit behind the header bytes: the edited stream fails
+to install, or an installed file and its original are a concrete same-length CRC collision. -/
+theorem edit_in_data_collides (E : Ext) (s s' db : Bytes) (wals : List Bytes)
+    (h : install E false [s] = .installed db wals) (pos : Nat) (e : EditAt pos s s') (hpos : 4 + be32 s ≤ pos)
+    (db' : Bytes) (wals' : List Bytes) (h' : install E false [s'] = .installed db' wals') :
+    Collide E db' db ∨ ∃ w' ∈ wals', ∃ w ∈ wals, Collide E w' w := by
+  apply data_corruption_collides E s s' db wals h e.ne _ db' wals' h'
+  have := e.take_eq
+  have h1 : s'.take (4 + be32 s) = (s'.take pos).take (4 + be32 s) := by
+    rw [List.take_take]; congr 1; omega
+  have h2 : s.take (4 + be32 s) = (s.take pos).take (4 + be32 s) := by
+    rw [List.take_take]; congr 1; omega
+  rw [h1, h2, this]
+
 /-- **truncation anywhere fails** (partial 2), in the edit vocabulary -/
 theorem edit_truncation_fails (E : Ext) (s db : Bytes) (wals : List Bytes)
     (h : install E false [s] = .installed db wals) (k : Nat) (hk : k < s.length) :
@@ -626,12 +728,13 @@ theorem transport_transparent_partial (E : Ext) (Z : Zstd) (hZ : Z.Lawful) (due 
     installVia E Z due p.length (sendWire Z p.length p) = install E due [p] := by
   simp [installVia, transport_transparent Z hZ p hp hfit]
 
-/-- a lawful toy codec that expands: content, then an end marker -/
-def expZ : Zstd :=
-  { comp := fun x => x ++ [255],
-    dec := fun w => match w.reverse with
-      | 255 :: r => (r.reverse, true)
-      | _ => (w, false) }
+/-- what an over-long wire form can do: by the truncation law the receiver gets the whole
+payload after all or an error, never other bytes -/
+theorem transport_oversize_fails_or_same (Z : Zstd) (hZ : Z.Lawful) (p : Bytes)
+    (hp : p.length < 9223372036854775808) (h8 : 8 ≤ p.length)
+    (hover : p.length < (sendWire Z p.length p).length) :
+    recvWire Z p.length (sendWire Z p.length p) = ⟨p, false⟩ ∨
+    (recvWire Z p.length (sendWire Z p.length p)).err = true := recv_oversize Z hZ p hp h8 hover
 
 /-- the size prefix: a larger declared size goes unnoticed (the decoder ends first, cleanly);
 a smaller one delivers a prefix, which raft's byte count then rejects -/
@@ -710,6 +813,56 @@ theorem installed_verified (E : Ext) (s : SinkSt) (db : Bytes) (wals : List Byte
 /-- a stream that ends before its header is complete is never reported as installed -/
 theorem header_incomplete_fails (E : Ext) (buf : Bytes) : sinkClose E (.header buf) = .closeErr .incomplete := rfl
 
+/-! ### the "or nothing" half: a crash during `Sink.Close` -/
+
+/-- **crash_installs_all_or_nothing.** Wherever the process dies during `Sink.Close`, after the
+next start the store shows either no trace of the snapshot or the complete snapshot directory
+(data files, CRC sidecars and meta.json): the rename into place comes after every write. -/
+theorem crash_installs_all_or_nothing (k : Nat) :
+    visibleAfterRestart (crashAfter k) = none ∨
+    ∃ d, visibleAfterRestart (crashAfter k) = some d ∧ d.complete = true := by
+  have h : ∀ j, j ≤ closeSteps.length → (visibleAfterRestart (crashAfter j) = none ∨
+      ∃ d, visibleAfterRestart (crashAfter j) = some d ∧ d.complete = true) := by decide
+  by_cases hk : k ≤ closeSteps.length
+  · exact h k hk
+  · have : crashAfter k = crashAfter closeSteps.length := by
+      simp only [crashAfter]
+      rw [List.take_of_length_le (by omega), List.take_of_length_le (Nat.le_refl _)]
+    rw [this]; exact h _ (Nat.le_refl _)
+
+/-- nothing is visible before the rename step, the whole snapshot from it on -/
+theorem crash_before_rename_shows_nothing :
+    (∀ k, k < 4 → visibleAfterRestart (crashAfter k) = none) ∧
+    (∀ k, k < 7 → 4 ≤ k → visibleAfterRestart (crashAfter k) = some ⟨true, true, true⟩) := by decide
+
+/-- **incremental_crash_all_or_nothing.** The incremental-file path: wherever the process dies
+during Close, after the restart (tmp directory removed) the WAL files are either still in the
+local source directory with nothing installed, or gone from the source with nothing installed
+(steps 1-5: the captured WAL data is lost, which is why the code exits hard and a full snapshot
+follows), or installed completely with their meta.json; never a partial snapshot directory. -/
+theorem incremental_crash_all_or_nothing (k : Nat) (hk : k < 8) :
+    (incCrashAfter k).installed = none ∨ (incCrashAfter k).installed = some true := by
+  revert k; decide
+
+/-- the window in which the captured WAL files exist nowhere the next start will look -/
+theorem incremental_crash_loses_source_between_move_and_rename :
+    ∀ k, k < 8 → (((incCrashAfter k).source = false ∧ (incCrashAfter k).installed = none) ↔ (1 ≤ k ∧ k ≤ 5)) := by
+  decide
+
+open RqModel.Gen.SinkClose in
+/-- **close_order_fact.** In the CURRENT source, after the sink-specific part (`sinkW.Close()`
+for a full snapshot; moving the WAL directory in for an incremental one) `Sink.Close` calls
+writeMeta, syncs the tmp directory, renames it into place, clears the full-needed flag and
+syncs the store directory, in this order; `FullSink.Close` runs the SQLite-format checks before
+it writes any sidecar; `Store.check` removes tmp directories. -/
+theorem close_order_fact :
+    (sinkCloseCalls.drop 5).filterMap closeStepOfCall =
+      [.closeFiles, .writeMeta, .syncTmp, .rename, .clearFlag, .syncTmp] ∧
+    (sinkCloseCalls.drop 5) = ["Close", "writeMeta", "SyncDirMaybe", "Rename", "ClearFullNeeded", "SyncDirMaybe"] ∧
+    sinkCloseCalls.take 5 = ["RemoveAll", "RemoveAll", "Rename", "MoveWALFilesTo", "Remove"] ∧
+    fullSinkCloseCalls = ["IsValidSQLiteFile", "IsValidSQLiteWALFile", "WriteFile", "WriteFile"] ∧
+    storeCheckCalls = ["isTmpName", "RemoveAll"] := by decide
+
 /-! ### non-vacuity: a concrete stream through concrete (toy) externals -/
 
 def exDb : Bytes := [83, 81, 76, 0, 1, 2]
@@ -726,13 +879,27 @@ example : install exExt false [frame exHb [exDb] ++ [0]] = .writeErr .unexpected
 example : restore exExt (frame exHb [exDb] ++ [0]) = .err .trailingData := by decide
 example : install exExt false [(frame exHb [exDb]).take 5] = .closeErr .incomplete := by decide
 
-/-- **witness**: an incompressible payload (wire longer than `req.Size`) is cut by raft's
-LimitReader; the decompressor fails and nothing can be installed — although nothing was corrupted -/
-theorem transport_transparent_witness :
-    installVia exExt expZ false (frame exHb [exDb]).length (sendWire expZ (frame exHb [exDb]).length (frame exHb [exDb]))
-      = .writeErr .transport ∧
-    install exExt false [frame exHb [exDb]] = .installed exDb [] := by
-  refine ⟨by decide, by decide⟩
+/-- **witness, with a LAWFUL codec** (`escZ`: every byte escaped, frame ended by a marker;
+`escZ_lawful` proves both laws): the payload does not shrink, raft's LimitReader cuts the wire
+form, the decompressor fails and nothing is installed — although nothing was corrupted and the
+same bytes written directly to the sink install. -/
+theorem transport_transparent_witness : ¬ transport_transparent_full := by
+  intro h
+  have := h exExt escZ escZ_lawful false (frame exHb [exDb]) (by decide)
+  revert this
+  decide
 
+/-- the laws are satisfiable together with the "fits" hypothesis (`tinyZ` compresses twenty 7s into
+one byte): the partial transparency theorem is not vacuous -/
+example (E : Ext) (due : Bool) :
+    installVia E tinyZ due sevens.length (sendWire tinyZ sevens.length sevens) = install E due [sevens] :=
+  transport_transparent_partial E tinyZ tinyZ_lawful due sevens (by decide) (by decide)
+
+/-- the laws are satisfiable, so the transport theorems are not vacuous -/
+example : recvWire escZ 40 (sendWire escZ 5 [1, 2, 3, 4, 5]) = ⟨[1, 2, 3, 4, 5], false⟩ := by decide
+example : recvWire escZ 40 (sendWire escZ 9 [1, 2, 3, 4, 5]) = ⟨[1, 2, 3, 4, 5], false⟩ :=
+  size_prefix_larger_unnoticed escZ escZ_lawful [1, 2, 3, 4, 5] 9 40 (by decide) (by decide) (by decide)
+example : recvWire escZ 40 (sendWire escZ 3 ([1, 2, 3] ++ [4, 5])) = ⟨[1, 2, 3], false⟩ :=
+  bytes_after_declared_size_dropped escZ escZ_lawful [1, 2, 3] [4, 5] 40 (by decide) (by decide)
 
 end C10
